@@ -7,7 +7,7 @@ package auth
 // the build tag "verif". Syntax: /verif/DESIGN.md section 2.
 //
 //@ func (*Auth).LoginPost
-//@   property C01 C02 C03 C04 C18
+//@   property C01 C02 C03 C04 C16 C18
 //@
 //@   -- C01: a session is written only after the hasher accepted the submitted
 //@   -- password against the password of the user that was loaded under that pid
@@ -38,3 +38,18 @@ package auth
 //@   ensures[C18] no_panic: !panics
 //@   ensures[C18] load_error_outcome: each Store.Load(_) -> (_, ?le) => (le != nil && le != ErrUserNotFound) ==>
 //@       (result == le && !emits Respond(_, _, _) && !emits Redirect(_) && !emits Sess.Put(_, _))
+//@
+//@   -- C16(a): once the first event of the login (after-auth-fail for a wrong password,
+//@   -- before-auth for a correct one) is handled - as the lock module does for a locked
+//@   -- account - LoginPost itself adds nothing the client could observe
+//@   ensures[C16] handled_adds_nothing: (emits Fire(_, _, _, _, _) -> (?hd, ?e) :: hd && e == nil && !(before Fire(_, _, _, _, _))) ==>
+//@       (result == nil && !emits Respond(_, _, _) && !emits Redirect(_) && !emits Sess.Put(_, _) && !emits Sess.Del(_) && !emits Cook.Put(_, _) && !emits Cook.Del(_))
+//@   ensures[C16] first_event_sees_the_user: each Fire(_, _, ?cu, _, _) => !(before Fire(_, _, _, _, _)) ==>
+//@       (before Store.Load(_) -> (?u, ?le) :: le == nil && cu == u)
+//@   -- C16(c): an unknown account and a wrong password (not handled by any module) get the
+//@   -- same page, status and message, and no session or cookie change
+//@   ensures[C16] unknown_vs_wrong: each Respond(?code, ?page, ?data) =>
+//@       (code == 200 && page == PageLogin && maplen(data) == 1 && mapget(data, DataErr) == loc(a.Authboss, TxtInvalidCredentials) &&
+//@        !emits Sess.Put(_, _) && !emits Sess.Del(_) && !emits Cook.Put(_, _) && !emits Cook.Del(_) && !emits Redirect(_))
+//@   ensures[C16] unknown_responds: (each Store.Load(_) -> (_, ?le) => le == ErrUserNotFound ==> after Respond(_, _, _)) &&
+//@       (each Fire("After", EventAuthFail, _, _, _) -> (?hd, ?e) => (!hd && e == nil) ==> after Respond(_, _, _))
